@@ -239,13 +239,20 @@ class PDFResourceManager:
                 font = PDFCIDFont(self, spec)
             elif subtype == "Type0":
                 # Type0 Font
-                dfonts = list_value(spec["DescendantFonts"])
-                assert dfonts
-                subspec = dict_value(dfonts[0]).copy()
+                dfonts = list_value(spec.get("DescendantFonts"))
+                if settings.STRICT:
+                    assert dfonts
+                # a missing descendant is read as an empty CID font
+                subspec = dict_value(dfonts[0]).copy() if dfonts else {}
                 for k in ("Encoding", "ToUnicode"):
                     if k in spec:
                         subspec[k] = resolve1(spec[k])
-                font = self.get_font(None, subspec)
+                if "Subtype" in subspec and literal_name(subspec["Subtype"]) == "Type0":
+                    # a composite font cannot descend from a composite font
+                    # (it may even be its own descendant)
+                    font = PDFCIDFont(self, subspec)
+                else:
+                    font = self.get_font(None, subspec)
             else:
                 if settings.STRICT:
                     raise PDFFontError("Invalid Font spec: %r" % spec)
